@@ -18,10 +18,12 @@ def sh(cmd, **kw):
 
 
 def main():
-    pid, var = sys.argv[1], sys.argv[2]
+    pidfull, var = sys.argv[1], sys.argv[2]          # e.g. C03 a   or   C03r2 a  (second round)
+    pid, rnd = pidfull[:3], pidfull[3:]
     checks = [pid] + sys.argv[3:]
-    src = "/tmp/seedwork/out-%s/%s" % (pid, var)
-    wt = "/tmp/seedwork/chk-%s-%s" % (pid, var)
+    src = "/tmp/seedwork/out-%s/%s" % (pidfull, var)
+    wt = "/tmp/seedwork/chk-%s-%s" % (pidfull, var)
+    var = rnd + var
     sh("git -C /repo worktree remove --force %s" % wt)
     r = sh("git -C /repo worktree add --detach %s HEAD" % wt)
     assert r.returncode == 0, r.stderr
